@@ -65,7 +65,8 @@ class PollerModel:
             return
         self.body = cands[0]
         chk.saw(self.body)
-        self.engine = common.mk_engine(fb)
+        # an arbitrary iteration of the loop, not the first one: loop-carried locals are unknown at the loop header
+        self.engine = common.mk_engine(fb, havoc_loops=True)
         self.paths = [p for p in self.engine.run(self.body) if p.kind != 'unreachable']
         chk.analysed['paths'] += len(self.paths)
         for p in self.engine.inlined:
